@@ -423,7 +423,9 @@ fn suffix_strategy(has_loader: bool) -> BoxedStrategy<POp> {
     fw => (a(), key()).prop_map(move |(a, k)| if has_loader { POp::FetchWith { a, k } } else { POp::Peek { a, k } }),
     2 => (a(), key()).prop_map(|(a, k)| POp::Peek { a, k }),
     1 => (a(), key(), 0u8..4).prop_map(|(a, k, c)| POp::Insert { a, k, c }),
-    1 => (a(), key(), 0u8..4).prop_map(|(a, k, form)| POp::Compute { a, k, form }),
+    // (only the try_ forms: compute / compute_val wait as long as anybody holds the value — documented —
+    // which turns a defect that leaks a reference into a hang instead of a verdict)
+    1 => (a(), key(), 0u8..2).prop_map(|(a, k, form)| POp::Compute { a, k, form: form * 2 + 1 }),
     1 => (a(), key(), 0u8..4, any::<bool>()).prop_map(|(a, k, c, with)| POp::OrInsert { a, k, c, with }),
   ]
   .boxed()
@@ -1329,7 +1331,8 @@ fn run_in(w: &Arc<World>, sc: &Scenario, plan: Plan) -> Result<(Outcome, RunInfo
       return Err(RunErr::Inconclusive("suffix: loader task still running".into()));
     }
   }
-  if std::iter::once(&ra).chain(std::iter::once(&rb)).chain(suffix.iter()).any(|r| matches!(r, Res::Comp(Comp::Busy))) {
+  // (after the settle nothing but the cache holds a value: a "busy" in the suffix is an ordinary result)
+  if [&ra, &rb].iter().any(|r| matches!(r, Res::Comp(Comp::Busy))) {
     info.busy = true;
   }
   // ---- bounded caches: maintenance to a fixpoint (C13 "after maintenance has run at quiescence") ----
@@ -1470,6 +1473,20 @@ fn is_fetch_with(op: &POp) -> bool {
 }
 
 pub fn execute(sc: &Scenario) -> Result<CaseReport, Failure> {
+  // Absolute clauses that belong to another property than the one under check do not end the case: the
+  // differential comparison may still find a violated sentence of the property under check (one defect
+  // often shows in several observations); they are reported if nothing else is.
+  let mut other: Vec<Failure> = Vec::new();
+  match execute_inner(sc, &mut other) {
+    Err(f) => Err(f),
+    Ok(rep) => match other.into_iter().next() {
+      Some(f) => Err(f),
+      None => Ok(rep),
+    },
+  }
+}
+
+fn execute_inner(sc: &Scenario, other: &mut Vec<Failure>) -> Result<CaseReport, Failure> {
   let prop = crate::current_property();
   let mut rep = CaseReport::new();
   // (evaluations = executions of the scenario: references and the forced interleaving)
@@ -1568,12 +1585,20 @@ pub fn execute(sc: &Scenario) -> Result<CaseReport, Failure> {
   // C13: "Once operations have quiesced, the reported current_cost equals the sum of the costs of the
   // entries that are actually resident": every key was removed through the public API, nothing is
   // resident
-  if conc.left_after_purge == 0 && conc.cost_after_purge != 0 {
-    return Err(fail("C13", "current_cost_nonzero_with_nothing_resident", format!("after both operations returned and every key was removed the cache is empty but metrics().current_cost = {} ({})", conc.cost_after_purge, conc.cost_after_purge as i64)));
+  macro_rules! absolute {
+    ($f:expr) => {{
+      let f: Failure = $f;
+      if f.property == prop {
+        return Err(f);
+      }
+      other.push(f);
+    }};
   }
-  if let Some(sum) = info.resident_cost_known {
+  if conc.left_after_purge == 0 && conc.cost_after_purge != 0 {
+    absolute!(fail("C13", "current_cost_nonzero_with_nothing_resident", format!("after both operations returned and every key was removed the cache is empty but metrics().current_cost = {} ({})", conc.cost_after_purge, conc.cost_after_purge as i64)));
+  } else if let Some(sum) = info.resident_cost_known {
     if conc.cost != sum {
-      return Err(fail("C13", "current_cost_differs_from_resident_cost", format!("after both operations returned: metrics().current_cost = {} ({}), the resident entries {:?} cost {sum}", conc.cost, conc.cost as i64, conc.map)));
+      absolute!(fail("C13", "current_cost_differs_from_resident_cost", format!("after both operations returned: metrics().current_cost = {} ({}), the resident entries {:?} cost {sum}", conc.cost, conc.cost as i64, conc.map)));
     }
   }
 
@@ -1583,7 +1608,7 @@ pub fn execute(sc: &Scenario) -> Result<CaseReport, Failure> {
     // configured capacity"
     if let Some((sum, passes)) = info.bounded_resident {
       if info.resident_cost_known.is_some() && sum > cap {
-        return Err(fail("C13", &format!("over_capacity/{}", sc.cfg.pol.name()), format!("after both operations returned and {passes} maintenance passes (fixpoint) the resident entries {:?} cost {sum} > capacity {cap}", conc.map)));
+        absolute!(fail("C13", &format!("over_capacity/{}", sc.cfg.pol.name()), format!("after both operations returned and {passes} maintenance passes (fixpoint) the resident entries {:?} cost {sum} > capacity {cap}", conc.map)));
       }
     }
     // a bounded cache may forget at any time: nothing else is compared
@@ -1593,7 +1618,7 @@ pub fn execute(sc: &Scenario) -> Result<CaseReport, Failure> {
   // fetch_with hit ... never returns ... a removed value (no resurrection)"
   if let Some(msg) = &info.postlude {
     let p = if prop == "C11" { "C11" } else { "C15" };
-    return Err(fail(p, "fetch_with_after_removal_did_not_load_once", msg.clone()));
+    absolute!(fail(p, "fetch_with_after_removal_did_not_load_once", msg.clone()));
   }
 
   // ---- references ----
@@ -1782,7 +1807,8 @@ pub fn check(check: &mut Check) {
   let ctx = check.ctx.clone();
   let focus = Focus::of(&ctx.property);
   let n = match focus {
-    Focus::C11 | Focus::C15 => ctx.tier.pick(3_000u64, 300_000u64),
+    Focus::C11 => ctx.tier.pick(4_000u64, 300_000u64),
+    Focus::C15 => ctx.tier.pick(3_000u64, 300_000u64),
     _ => ctx.tier.pick(2_500u64, 300_000u64),
   };
   let n = std::env::var("VERIF_PAIR_CASES").ok().and_then(|s| s.parse().ok()).unwrap_or(n); // development aid
